@@ -9,3 +9,10 @@ func (t *Timer) VerifAsyncLen() int {
 	defer t.asyncMux.Unlock()
 	return len(t.asyncList)
 }
+
+// VerifAsyncCap returns cap(asyncList) under the mutex.
+func (t *Timer) VerifAsyncCap() int {
+	t.asyncMux.Lock()
+	defer t.asyncMux.Unlock()
+	return cap(t.asyncList)
+}
